@@ -17,6 +17,7 @@ from .. import harness as H, irsym, ode, proj
 from ..corpus import Case, rx
 from ..irsym import DIVZERO_SEEN, Inconclusive, Ptr, R, State, inv_axioms, is_sym
 from ..report import Check
+from ..xcheck import XCheck
 
 
 def cases(thorough):
@@ -162,6 +163,7 @@ def _one(case, p, meta, tdir, res):
             s.add(bad)
             rr = str(s.check())
             m = s.model() if rr == "sat" else None
+            XC.sample(s, [], rr, name)
             s.pop()
         if rr == "unsat":
             res["ok"].append(name)
@@ -220,8 +222,14 @@ def _one(case, p, meta, tdir, res):
     res["solver_s"] += time.time() - t0
 
 
+XC = XCheck()
+
+
 def _work(a):
-    return analyse(*a)
+    XC.__init__(every=10 if a[1] == "thorough" else 30, first=1, cap=6 if a[1] == "thorough" else 1, tlimit_ms=30_000 if a[1] == "thorough" else 10_000)
+    r = analyse(*a)
+    r["xcheck"] = XC.summary()
+    return r
 
 
 # --------------------------------------------------------------------------- class level: Naunet::Renorm / SetReferenceAbund
@@ -437,6 +445,7 @@ def _class_level(case, p, tdir, res):
 
     def ask(name, bad, what, replay=None, expect="unsat"):
         rr = str(s.check(bad))
+        XC.sample(s, [bad], rr, name)
         if expect == "sat":
             if rr == "sat":
                 res["ok"].append(name)
@@ -639,6 +648,7 @@ def main(pid, tier):
         chk.programs += r["programs"]
         chk.solver_s += r["solver_s"]
         chk.functions.update(r["functions"])
+        chk.xc.merge(r.get("xcheck"))
         for n in r["ok"]:
             chk.ok(n)
             chk.nontrivial.add(n)
